@@ -155,6 +155,37 @@ images/pxeboot/vmlinuz = sha256:%s
 """ % ("a" * 64)
 
 
+class CallDoc(object):
+    """A public entry point taking one text argument (c19.entry_points), seen as a one-position document."""
+
+    def __init__(self, ep, sample):
+        self.name, self.cls_path, self.sample = "call %s" % ep, "ep:" + ep, sample
+
+    def positions(self):
+        return [("arg", [])]
+
+    def get(self, pos):
+        return self.sample
+
+    def render(self, subst):
+        return list(subst.values())[0] if subst else self.sample
+
+
+CALL_SAMPLES = {
+    "Rpms.add(nevra)": "Packages/a/a-devel-12:9.20~rc1-3.armhfp.rpm", "Rpms.add(srpm_nevra)": "a-12:9.20~rc1-3.src",
+    "Modules.add(uid)": "httpd:2.4:20180101:deadbeef", "Modules.parse_uid": "httpd:2.4:20180101:deadbeef",
+    "parse_nvra": "Packages/a/a-devel-12:9.20~rc1-3.armhfp.rpm", "parse_release_id": "fedora-server-30.1-updates@rhel-8-eus",
+    "get_date_type_respin": "Fedora-Server-30-20190101.n.2", "verify_label": "RC-1.2", "split_version": "7.10.2",
+    "create_release_id(short)": "fedora-server", "create_release_id(version)": "30.1", "create_release_id(bp_short)": "rhel-base",
+    "Compose.id": "Fedora-Server-30-20190101.n.2", "Compose.label": "RC-1.2", "Variant.id": "ServerOptional",
+    "Image.path": "Server/x86_64/iso/boot-30.iso", "Image.volume_id": "Fedora-S-30-x86_64", "Image.subvariant": "Server-KDE",
+    "TreeInfo.loads(tree/platforms)": "x86_64,xen-pv", "TreeInfo.loads(checksums value)": "sha256:" + "ab12" * 16,
+    "TreeInfo.loads(legacy general/family)": "Red Hat Enterprise Linux", "TreeInfo.loads(legacy general/version)": "7.2-beta",
+    "ComposeInfo.loads(compose.id)": "Fedora-Server-30-20190101.n.2", "ComposeInfo.loads(release.version)": "30.1",
+    "Images.loads(path)": "Server/x86_64/iso/boot-30.iso", "DiscInfo.loads(disc numbers)": "1,2,3",
+}
+
+
 def documents():
     from . import samples
     docs = [IniDoc("treeinfo (current)", "productmd.treeinfo.TreeInfo", samples.treeinfo(1).dumps()),
@@ -180,6 +211,7 @@ def documents():
         [{"v": "V1", "a": "bin1", "srpm": "s1", "rpm": "b1", "type": "package", "sigkey": "null", "path": "rel1"},
          {"v": "V1", "a": "src", "srpm": "s1", "rpm": "s1", "type": "source", "sigkey": "null", "path": "rel1"}],
         rpms_adapter.NAMESETS[0], rpms_adapter.ARCHSETS[0])))
+    docs += [CallDoc(ep, sample) for ep, sample in sorted(CALL_SAMPLES.items())]
     return docs
 
 
@@ -223,8 +255,20 @@ def _observe(hits):
     return orig
 
 
+_EPS = {}
+
+
 def _load(cls_path, text):
     import importlib
+    if cls_path.startswith("ep:"):
+        if not _EPS:
+            from . import c19
+            _EPS.update(c19.entry_points())
+        try:
+            _EPS[cls_path[3:]](text)
+        except BaseException:
+            pass
+        return
     mod, cls = cls_path.rsplit(".", 1)
     obj = getattr(importlib.import_module(mod), cls)()
     try:
@@ -276,6 +320,21 @@ class Loader(object):
 
 # ------------------------------------------------------------------ the phase
 
+SELF = "(.+)+$"            # + a run of x: matches any text in exponentially many ways and then demands an x after its end
+
+
+def _placements(value):
+    """Ways of putting a marker into the text at a position: instead of all of it, or instead of one of its words (a structured
+    value - N-E:V-R.A, a release or compose ID - is only taken apart, and its parts reused, when the rest of it is well-formed)."""
+    import re
+    out = [lambda m: m]
+    words = list(re.finditer(r"[A-Za-z0-9]+", value or ""))
+    if len(words) >= 2:
+        for w in words[:6]:
+            out.append(lambda m, a=w.start(), b=w.end(): value[:a] + m + value[b:])
+    return out
+
+
 def evaluate(cap=2.0, docs=None):
     """-> (violations [(case, why)], stats)"""
     obs, plain = Loader(True), Loader(False)
@@ -284,10 +343,10 @@ def evaluate(cap=2.0, docs=None):
         for doc in (docs or documents()):
             stats["documents"] += 1
             positions = doc.positions()
-            for pos, MARK in ((p_, m_) for p_ in positions for m_ in MARKS):
+            for pos, put, MARK in ((p_, put_, m_) for p_ in positions for put_ in _placements(doc.get(p_)) for m_ in MARKS):
                 stats["positions"] += 1
                 key = json.dumps(pos)
-                text = doc.render({key: MARK})
+                text = doc.render({key: put(MARK)})
                 t, hits = obs.load(doc.cls_path, text, cap * 5)
                 if t is None:
                     viol.append(({"doc": doc.name, "cls": doc.cls_path, "text": text},
@@ -300,6 +359,20 @@ def evaluate(cap=2.0, docs=None):
                     seen.add((pattern, subject))
                     stats["patterns_built_from_document_text"].append({"doc": doc.name, "position": pos, "pattern": pattern, "subject": subject})
                     if not subject:
+                        continue
+                    if CORE in subject:
+                        # the pattern is applied to the very text it was built from: let that text be a pattern that matches
+                        # itself ambiguously and can never succeed
+                        for n in PUMPS:
+                            text2 = doc.render({key: put(SELF + "x" * n)})
+                            stats["pump_loads"] += 1
+                            t2, _ = plain.load(doc.cls_path, text2, cap)
+                            if t2 is None:
+                                viol.append(({"doc": doc.name, "cls": doc.cls_path, "text": text2},
+                                             "%s: the library builds the pattern %r from the text at %s and applies it to that same text; "
+                                             "with %r there (%d bytes in all) the call did not finish within %.0f s"
+                                             % (doc.name, pattern, pos, put(SELF + "x" * n), len(text2), cap)))
+                                break
                         continue
                     # where does the subject come from?  give that place the pump instead
                     for pos2 in positions:
@@ -345,21 +418,73 @@ def chained_interpolation(k, levels=9):
     return text + "[tree]\narch = x86_64\nbuild_timestamp = 1\nplatforms = x86_64\nvariants =\n"
 
 
+def twin_variants(depth):
+    """A composeinfo in which every level has two sections claiming the same id / UID, both listing the next level's two."""
+    def entry(uid, kids):
+        e = {"id": "X", "uid": uid, "name": "X", "type": "variant", "arches": ["x86_64"], "paths": {}}
+        if kids:
+            e["variants"] = ["a", "b"]
+        return e
+    variants = {"T": dict(entry("T", True), id="T", name="T")}
+    uid = "T"
+    for level in range(depth):
+        variants[uid + "-a"] = entry(uid + "-X", level < depth - 1)
+        variants[uid + "-b"] = entry(uid + "-X", level < depth - 1)
+        uid += "-X"
+    return json.dumps({"header": {"type": "productmd.composeinfo", "version": "1.2"},
+                       "payload": {"compose": {"id": "T-1.0-20240101.0", "type": "production", "date": "20240101", "respin": 0},
+                                   "release": {"name": "Test", "short": "T", "version": "1.0", "type": "ga"}, "variants": variants}})
+
+
+def shared_children(depth):
+    """A composeinfo whose levels are related by UID prefix only (0.3): every section is a prefix of all deeper ones."""
+    variants = {}
+    uid = "T"
+    for level in range(depth):
+        variants[uid] = {"id": "X" if level else "T", "uid": uid, "name": "X", "type": "variant", "arches": ["x86_64"], "paths": {}}
+        uid += "-X"
+    return json.dumps({"header": {"version": "0.3"},
+                       "payload": {"compose": {"id": "T-1.0-20240101.0", "type": "production", "date": "20240101", "respin": 0},
+                                   "product": {"name": "Test", "short": "T", "version": "1.0", "type": "ga"}, "variants": variants}})
+
+
+def twin_tree_variants(depth):
+    """The same twins in a current .treeinfo."""
+    text = ("[header]\nversion = 1.2\ntype = productmd.treeinfo\n[release]\nshort = F\nversion = 1\nname = F\n"
+            "[tree]\narch = x86_64\nbuild_timestamp = 1\nplatforms = x86_64\nvariants = T\n")
+    text += "[variant-T]\nid = T\nuid = T\nname = T\ntype = variant\nvariants = T-a,T-b\n"
+    uid = "T"
+    for level in range(depth):
+        for x in "ab":
+            text += "[variant-%s-%s]\nid = X\nuid = %s-X\nname = X\ntype = variant\n" % (uid, x, uid)
+            if level < depth - 1:
+                text += "variants = %s-X-a,%s-X-b\n" % (uid, uid)
+        uid += "-X"
+    return text
+
+
+CHEAP_FAMILIES = (("composeinfo-twin-variants", twin_variants, "productmd.composeinfo.ComposeInfo", (12, 24), (8, 12, 16, 20, 24, 30)),
+                  ("composeinfo-prefix-chain", shared_children, "productmd.composeinfo.ComposeInfo", (12, 24), (8, 12, 16, 20, 24, 30)),
+                  ("treeinfo-twin-variants", twin_tree_variants, "productmd.treeinfo.TreeInfo", (12, 24), (8, 12, 16, 20, 24, 30)))
+
+
 def evaluate_fanout(cap=10.0, quick=False):
     """-> [(case, why)]: growth of the reading time of two document families with the document's length."""
     out = []
     ld = Loader(False)
     try:
-        for family, make, params in (("legacy-nested-addons", nested_legacy, (10, 17) if quick else (6, 8, 10, 12, 14, 16, 18)),
-                                     ("chained-interpolation", chained_interpolation, (3, 7) if quick else (2, 3, 4, 5, 6, 7))):
+        ti = "productmd.treeinfo.TreeInfo"
+        for family, make, cls, params in [("legacy-nested-addons", nested_legacy, ti, (10, 17) if quick else (6, 8, 10, 12, 14, 16, 18)),
+                                          ("chained-interpolation", chained_interpolation, ti, (3, 7) if quick else (2, 3, 4, 5, 6, 7))] \
+                + [(f, m, c, q if quick else th) for f, m, c, q, th in CHEAP_FAMILIES]:
             prev = None
             for prm in params:
                 text = make(prm)
-                t, _ = ld.load("productmd.treeinfo.TreeInfo", text, cap)
+                t, _ = ld.load(cls, text, cap)
                 if t is None:
-                    out.append(({"family": family, "param": prm, "bytes": len(text), "cls": "productmd.treeinfo.TreeInfo", "text": text, "doc": family},
-                                "TreeInfo.loads of a %d-byte document (%s, parameter %d) did not finish within %.0f s%s"
-                                % (len(text), family, prm, cap, "" if prev is None else "; %d bytes took %.2f s" % (prev[0], prev[1]))))
+                    out.append(({"family": family, "param": prm, "bytes": len(text), "cls": cls, "text": text, "doc": family},
+                                "%s.loads of a %d-byte document (%s, parameter %d) did not finish within %.0f s%s"
+                                % (cls.rsplit(".", 1)[1], len(text), family, prm, cap, "" if prev is None else "; %d bytes took %.2f s" % (prev[0], prev[1]))))
                     break
                 prev = (len(text), t)
     finally:
